@@ -23,7 +23,7 @@ ASSUMPTIONS = [
     "known finding nsmap-member-order-only: a reloaded child whose map equals its parent's adopts the parent's key order; accepted only "
     "when both texts parse to equal objects and every difference is the member order of an 'nsmap' object",
 ]
-REQUIRED = ["roundtrips", "legacy_roundtrips", "upgrades", "trees_with_tail", "trees_with_extras", "trees_with_prefix", "trees_with_nested_nsmap",
+REQUIRED = ["aliasing_checks", "trees_with_clark_extras_key", "roundtrips", "legacy_roundtrips", "upgrades", "trees_with_tail", "trees_with_extras", "trees_with_prefix", "trees_with_nested_nsmap",
             "text_identical"]
 EXHAUSTIVE = {"quick": False, "thorough": False}
 
@@ -125,6 +125,8 @@ def judge(ctx, t, origin):
             ctx.count("trees_with_prefix"); break
     if any(c.nsmap != n.nsmap for n in nodes for c in n.children):
         ctx.count("trees_with_nested_nsmap")
+    if any(k.startswith("{") and "}" in k for n in nodes for k in n.extras):
+        ctx.count("trees_with_clark_extras_key")
     if any(c.nsmap == n.nsmap and list(c.nsmap) != list(n.nsmap) for n in nodes for c in n.children):
         ctx.count("trees_with_equal_maps_in_different_member_order")
     v0 = snapshot.value(t, with_id=True)
@@ -158,6 +160,18 @@ def judge(ctx, t, origin):
         if pl:
             ctx.violation("reloaded-parent-links", pl, wit())
             break
+    # no attribute/extras dictionary of a loaded node may be shared with another node (of this tree, of the other reload, of the
+    # original): a later edit of one node would show up elsewhere and in every later save
+    seen = {}
+    for root_, label in ((t, "original"), (t2, "reloaded"), (t3, "reloaded(indent)")):
+        for n in snapshot.walk(root_):
+            for what, o in (("attributes", n.attributes), ("extras", n.extras)):
+                if id(o) in seen and seen[id(o)][0] is not n:
+                    ctx.violation(f"loaded-nodes-share-{what}-object", f"<{n.name}> ({label}) and <{seen[id(o)][0].name}> ({seen[id(o)][1]}) share one {what} "
+                                                                       f"dictionary", wit())
+                    break
+                seen[id(o)] = (n, label)
+    ctx.count("aliasing_checks")
     for a, b, label in ((text, text2, "compact"), (text_i, text3, "indent=2")):
         if a == b:
             ctx.count("text_identical")
